@@ -254,3 +254,16 @@ Example C08_nonvacuous :
   name_lookup ex_cstr ex_tables 0 = Ok (ByName 1 [97; 98]) /\ name_lookup ex_cstr ex_tables 3 = Ok (ByOrdinal 8) /\
   check_sorted ex_cstr ex_tables = Ok true.
 Proof. vm_compute. repeat split; reflexivity. Qed.
+
+(* ---- leaf functions regenerated from the source on every run (tools/gen_leaf.py -> gen/Leaf.v): agreement with the hand-written model ---- *)
+(* src/pe64/exports.rs Exports::is_forwarded, regenerated from the source on every run, is the model's classification
+   of a forwarder rva and cannot panic (the subtraction is guarded by the left operand of &&) *)
+From PV.Model Require Exports.
+From PV.gen Require Leaf.
+From PV.Proofs Require LeafExports.
+Theorem C08_leaf_is_forwarded : forall t rva,
+  Leaf.L_exports_Exports_is_forwarded_dom (Exports.t_dva t) (Exports.t_dsize t) rva = true ->
+  Leaf.L_exports_Exports_is_forwarded_ok (Exports.t_dva t) (Exports.t_dsize t) rva = true /\
+  Leaf.L_exports_Exports_is_forwarded (Exports.t_dva t) (Exports.t_dsize t) rva = Exports.is_forwarded t rva.
+Proof. exact LeafExports.is_forwarded_agrees. Qed.
+Print Assumptions C08_leaf_is_forwarded.
